@@ -1,7 +1,7 @@
 import TinsModel.Wire.L2.Util
 /-
   `Tins::PPPoE` (src/pppoe.cpp, include/tins/pppoe.h), little-endian host:
-  byte0 = version(4) | type(4)<<4, code, session_id (big-endian), payload_length (big-endian), then tags
+  byte0 = version(4)<<4 | type(4)  (RFC 2516: VER is the high nibble; fix KF-C15-5), code, session_id (big-endian), payload_length (big-endian), then tags
   `type (2 bytes, stored as read: host order) | length (big-endian) | data`.
 -/
 namespace Tins.Wire.L2
@@ -61,7 +61,7 @@ def parseTags : Nat → Cursor → PPPoE → Out PPPoE
 def parse (b : Bytes) : Out (PPPoE × Inner) := do
   let c := Cursor.ofBytes b
   let (h, c) ← c.read 6                                   -- stream.read(header_)
-  let p : PPPoE := ⟨byteAt h 0 % 16, byteAt h 0 / 16, byteAt h 1, Cursor.beNat ((h.drop 2).take 2),
+  let p : PPPoE := ⟨byteAt h 0 / 16, byteAt h 0 % 16, byteAt h 1, Cursor.beNat ((h.drop 2).take 2),
                     Cursor.beNat (h.drop 4), [], 0⟩
   let readSize := if c.size < p.payloadLength then c.size else p.payloadLength
   let c := c.setSize readSize                              -- stream.size(read_size)
@@ -118,7 +118,7 @@ def fields (p : PPPoE) : Fields :=
 def hdr (p : PPPoE) : Nat := 6 + p.tagsSize
 
 def headerBytes (p : PPPoE) : Bytes :=
-  [UInt8.ofNat (p.version + p.type * 16), UInt8.ofNat p.code] ++ OutCursor.beBytes 2 p.sessionId ++
+  [UInt8.ofNat (p.type + p.version * 16), UInt8.ofNat p.code] ++ OutCursor.beBytes 2 p.sessionId ++
   OutCursor.beBytes 2 p.payloadLength
 
 def tagBytes (t : PppoeTag) : Bytes := OutCursor.leBytes 2 t.code ++ OutCursor.beBytes 2 t.lenField ++ t.data
